@@ -12,6 +12,14 @@ TAGS = ('get', 'has', 'gp', 'ret', 'res', 'procs')
 CLAUSES = {'get', 'get-lists-pair-twice', 'has_component', 'get_component', 'get_processor', 'remove-result',
            'remove-matches-subtype', 'processors-order', 'outcome', 'shape', 'truncated', 'hang'}
 generate, project, oracle, nontrivial, stats = _world.make(
-    'C06', TAGS, CLAUSES, dict(n_comp=(2, 8), n_proc=(0, 5), handlers=0.15,
-                               w=dict(remove=6, rmproc=3, addproc=4, delete=1, process=0.5, clear=0.2,
-                                      enable=0.2, dispatch=0)))
+    'C06', TAGS, CLAUSES, [
+        dict(n_comp=(2, 8), n_proc=(0, 5), handlers=0.15,
+             w=dict(remove=6, rmproc=3, addproc=4, delete=1, process=0.5, clear=0.2, enable=0.2, dispatch=0)),
+        # create_entity given two components of one type (the later one wins)
+        dict(n_comp=(2, 6), n_proc=(0, 2), handlers=0.15, dup_in_create=0.6,
+             w=dict(create=8, remove=6, rmproc=1, addproc=1, delete=1, process=0.5, clear=0.2, enable=0.2,
+                    dispatch=0)),
+        # removals whose on_remove callback raises
+        dict(n_comp=(2, 6), n_proc=(0, 3), handlers=0.8, raises=0.8,
+             w=dict(remove=7, rmproc=3, addproc=4, delete=1, process=0.5, clear=0.2, enable=0.2, dispatch=0)),
+    ])
